@@ -88,9 +88,9 @@ def gen(seed, tier="quick"):
         pool = [["allow"], ["allow"], ["fail", "TRANSIENT"], ["fail", "SERVER_ERROR"], ["success"], ["cancel"], ["state"], ["fail", "PERMANENT"]]
         scn["suffix"] = [["state"], ["allow"], ["state"], ["fail", "TRANSIENT"], ["state"]]
     else:
-        mx = r.choice([1, 2, 3, 4])
+        mx = r.choice([1, 1, 2, 3, 4])
         cfg = {"max": mx, "window_us": 8 * U}
-        kind = r.choice(["near_full", "ageing", "empty", "full"])
+        kind = r.choice(["near_full", "ageing", "empty", "empty", "empty", "full"])
         init = []
         if kind == "near_full":
             init = [["consume", 1]] * (mx - 1)
@@ -234,9 +234,17 @@ def execute(scn):
         return {"violations": [V("R5", "deadlock under a legal interleaving", {"component": comp, "detail": "an operation re-acquires its own lock (single thread)"})],
                 "shape": None, "nontrivial": False, "runs": 1, "sim_us": 0, "faults": {}, "probes": {}}
     if comp == "breaker":
-        probe = lambda: (real._state.value, real._probe_in_flight, len(real._failures), real._lock.owner is not None)  # noqa: E731
+        def probe():   # best-effort peek at internals, only used to count distinct states reached
+            try:
+                return (real._state.value, real._probe_in_flight, len(real._failures), getattr(real._lock, "owner", None) is not None)
+            except Exception:
+                return ("?",)
     else:
-        probe = lambda: (len(real._events), real._lock.owner is not None)  # noqa: E731
+        def probe():
+            try:
+                return (len(real._events), getattr(real._lock, "owner", None) is not None)
+            except Exception:
+                return ("?",)
     now = clock.mono_us
     gseq = [0]
     history = []
